@@ -204,6 +204,39 @@ def operator_variant(spec):
 # ----------------------------------------------------------------------------------
 
 
+def cleaned_alike(a, b, L):
+    """do the library's own clean() copies of all boundaries of a and b have the same
+    segmentation (same junctions up to a rotation, within 1e-7*L)?"""
+    try:
+        ja = [j.__copy__().clean() for j in a.jordans]
+        jb = [j.__copy__().clean() for j in b.jordans]
+    except Exception:
+        return False
+    if len(ja) != len(jb):
+        return False
+    tol = 1e-7 * max(1.0, L)
+    rest = [S.snap_curve(j) for j in jb]
+    for j in ja:
+        ca = S.snap_curve(j)
+        found = None
+        for k, cb in enumerate(rest):
+            if len(ca) != len(cb):
+                continue
+            pa = [seg[0] for seg in ca]
+            pb = [seg[0] for seg in cb]
+            n = len(pa)
+            for r in range(n):
+                if all(abs(float(x[0] - y[0])) <= tol and abs(float(x[1] - y[1])) <= tol for x, y in zip(pa, pb[r:] + pb[:r])):
+                    found = k
+                    break
+            if found is not None:
+                break
+        if found is None:
+            return False
+        rest.pop(found)
+    return True
+
+
 def case(ctx):
     import shapepy
 
@@ -343,9 +376,13 @@ def case(ctx):
                 if expect and is_curved and ("split" in na or "split" in nb) and what == "shape":
                     # == relies on clean() to remove the vertices inserted by split; on curved
                     # boundaries clean may unite a piece with its tangent-continuous neighbour
-                    # (K-union-tol).  The variant itself was certified to be the same region.
-                    case.tags["clean_class"] = True
-                    case.tags["curved_union_small_dev"] = True
+                    # (K-union-tol).  The variant itself was certified to be the same region.  The
+                    # mechanism is confirmed on this very pair: the library's own clean() must give
+                    # the two objects different segmentations; if it gives the same one, the
+                    # failing == has another cause and the violation stands.
+                    if not cleaned_alike(a, b, L):
+                        case.tags["clean_class"] = True
+                        case.tags["curved_union_small_dev"] = True
                 case.violate("%s: (%s %s %s) is %r, expected %r" % (what, na, op, nb, got, expect), a=na, b=nb)
                 return False
         return True
